@@ -429,7 +429,7 @@ static void snap_restore(const snap_t *s)
 static char *real_obs(char *buf, size_t cap)
 {
     size_t k = 0;
-#define PUT(...) k += snprintf(buf + k, cap - k, __VA_ARGS__)
+#define PUT(...) do { if( k + 48 < cap ) k += snprintf(buf + k, cap - k, __VA_ARGS__); } while(0)
     for( int r = 0; r < N; r++ ) PUT("%s%d", r ? "," : "", (int)MOD(r)->taskpool_state(&vtp[r]));
     PUT("|"); for( int r = 0; r < N; r++ ) PUT("%s%d", r ? "," : "", cbcount[r]);
     PUT("|"); for( int r = 0; r < N; r++ ) PUT("%s%d", r ? "," : "", (int)vtp[r].nb_tasks);
@@ -475,7 +475,7 @@ static void emit_exec(int e, int mismatch, int illegal, int badterm, int stuck, 
 
 static void visit(int u, int depth)
 {
-    char robs[1024];
+    char robs[4096];
     snap_t *su = &snaps[depth];
     st_nodes++;
     snap_take(su);
@@ -561,7 +561,7 @@ static int run_graph(const char *path)
     setup(n);
     for( int r = 0; r < N; r++ ) monsz[r] = malloc_usable_size(vtp[r].tdm.monitor);
     ev("{\"e\":\"cfg\",\"n\":%d}\n", n);
-    { char robs[1024];
+    { char robs[4096];
       if( strcmp(real_obs(robs, sizeof(robs)), g_obs[g_init]) ) {
           fprintf(meta, "{\"edge\":-1,\"path\":[],\"mismatch\":1,\"illegal\":0,\"badterm\":0,\"stuck\":0,\"sampled\":0,\"real\":\"%s\",\"model\":\"%s\"}\n",
                   robs, g_obs[g_init]);
